@@ -134,6 +134,7 @@ impl Prop for C09 {
             await_breaks: vec![],
             stop_cmds: vec![],
             trace_via_command: false,
+            reply_breaks: vec![],
         };
         Case {
             prog,
@@ -239,6 +240,40 @@ impl Prop for C09 {
                                 return v("break-not-idle", format!("{:?}", b.state), format!("Break at boundary {boundary} left state {:?}", b.state));
                             }
                             ctx.count("fault.break+cont");
+                            if boundary % 2 == 0 {
+                                // a direct-mode line typed while the program is suspended is stepped like any other
+                                let mut prints = 0;
+                                let mut calls_n = 0;
+                                let mut call = s.apply(&Op::Line("PRINT 1 : PRINT 2 : PRINT 3".into()))?;
+                                loop {
+                                    calls_n += 1;
+                                    ctx.calls(1);
+                                    if let Some(p) = call.panicked() {
+                                        return v("panic", format!("panic@{p}"), format!("immediate line at a break unwound: {p}"));
+                                    }
+                                    let n = call.recs.iter().filter(|r| matches!(r, Rec::Print(_))).count();
+                                    if n > 1 {
+                                        return v(
+                                            "more-than-one-statement",
+                                            format!("immediate line at a breakpoint: {n} prints in one call"),
+                                            format!("`PRINT 1 : PRINT 2 : PRINT 3` typed at a breakpoint printed {:?} in one host call", call.recs),
+                                        );
+                                    }
+                                    prints += n;
+                                    if s.state() != St::Running || calls_n > 12 {
+                                        break;
+                                    }
+                                    call = s.apply(&Op::Tick)?;
+                                }
+                                if prints != 3 || calls_n < 3 {
+                                    return v(
+                                        "more-than-one-statement",
+                                        format!("immediate line at a breakpoint: {prints} prints in {calls_n} calls"),
+                                        format!("`PRINT 1 : PRINT 2 : PRINT 3` typed at a breakpoint took {calls_n} host calls and printed {prints} records"),
+                                    );
+                                }
+                                ctx.count("reach.immediate_line_at_break_stepped");
+                            }
                             Op::Line("CONT".into())
                         } else if st == St::Awaiting {
                             Op::Reply(replies.next().map(|r| r.text.clone()).unwrap_or_else(|| "0".into()))
